@@ -117,7 +117,7 @@ __CPROVER_requires(w >= 2 && w <= 8)
 __CPROVER_requires(VC_BN_FRESH(k) && VC_BN_NF(k) && (vc_mag(k) >> VC_NAF_MAXBITS) == 0)
 __CPROVER_requires(__CPROVER_is_fresh(len, sizeof(size_t)) && *len <= VC_NAF_MAXBITS + 2)
 __CPROVER_requires(__CPROVER_is_fresh(naf, *len))
-__CPROVER_requires(((vc_mag(k) >> *len) == 0 && *len >= 1) || g_may_throw)
+__CPROVER_requires((*len >= 1 && (vc_mag(k) >> (*len - 1)) == 0) || g_may_throw)      /* the NAF of k has at most bits(k) + 1 digits */
 VC_ASSIGNS(__CPROVER_object_whole(naf), *len, g_ctx.code, g_ctx.last, g_ctx.caught, g_ctx.error, g_ctx.number, g_thrown)
 __CPROVER_ensures(g_ctx.code == RLC_ERR || (*len <= __CPROVER_old(*len) && (vc_swide)vc_mag(k) == vc_naf_val(naf, *len)))
 __CPROVER_ensures(g_ctx.code == RLC_ERR || (gk < *len ==> (naf[gk] == 0 || ((naf[gk] & 1) == 1 && naf[gk] < (1 << (w - 1)) && naf[gk] > -(1 << (w - 1))))))
